@@ -35,6 +35,11 @@ def _params(fn: ast.FunctionDef) -> Tuple[List[str], Dict[str, ast.AST]]:
     if a.vararg or a.kwarg or a.posonlyargs:
         raise _NotInlinable("star / positional-only parameters")
     names = [x.arg for x in a.args] + [x.arg for x in a.kwonlyargs]
+    # a default is evaluated once, when the function is defined: only immutable literals can be re-evaluated at each inlined call
+    for d in list(a.defaults) + [d for d in a.kw_defaults if d is not None]:
+        lit = isinstance(d, ast.Constant) or (isinstance(d, ast.UnaryOp) and isinstance(d.operand, ast.Constant))
+        if not lit:
+            raise _NotInlinable("non-literal default value")
     defaults: Dict[str, ast.AST] = {}
     for n, d in zip(reversed([x.arg for x in a.args]), reversed(a.defaults)):
         defaults[n] = d
